@@ -1,7 +1,7 @@
 """C06 - flow and action lifetimes are bounded by the parent flow.
 
 Invariants evaluated after every fully processed external event (I1 orphan flows, I3 orphan
-actions) plus the action life-cycle automaton over the whole event history (I2), with action
+actions, I4 an activated flow owed by a running activator is alive) plus the action life-cycle automaton over the whole event history (I2), with action
 Finished events delivered late / early / never / twice by the simulated UMIM client."""
 from ..kernel.trace import Trace
 from ..worlds import interp as I
@@ -54,6 +54,11 @@ class C06(InterpProp):
                 if kind == "orphan-flow":
                     sig = "%s:%s" % (kind, _orphan_class(st, who))
                 out.violate("lifetime", sig, "after processing %s at t=%.3f: %s" % (IR._norm_event(rec.event), rec.t, detail))
+            # I4 (restart half): calibrated in observe-only mode first (0 of 202 400 runs on the unchanged tree; fires with a
+            # mutant that skips the restart after an abort)
+            if sc.get("program"):
+                for (kind, who, detail) in IR.check_activation_liveness(st, sc["program"]):
+                    out.violate("lifetime", kind, "after processing %s at t=%.3f: %s" % (IR._norm_event(rec.event), rec.t, detail))
             # reach probes / non-triviality
             cur = {u: f.status.name for u, f in st.flow_states.items()}
             ended = [u for u, s in cur.items() if s in ("FINISHED", "STOPPED") and prev["flows"].get(u) not in ("FINISHED", "STOPPED")]
